@@ -14,7 +14,7 @@ import math
 from simkit import gen, scenes, world
 from simkit.core import Counter, EventLog, Outcome, Streams, SutError, Violation
 
-from .c06 import build_etc, run_tracking
+from .c06 import BUILDS, build_etc, run_tracking
 
 PROPERTY = "C07"
 LEVEL = "exploration"
@@ -63,6 +63,8 @@ def generate(streams: Streams, tier: str, index: int) -> dict:
         cfg = {"method": method, "grid": crng.random() < 0.65}
         if method == "distance":
             cfg["max_dist"] = crng.choice([None, None, "inf", 0, 0.5, 1.0, 2.5, 6.0, 1000.0, -1])
+        cfg["build"] = crng.choice(BUILDS)
+        cfg["progress"] = crng.random() < 0.1
         configs.append(cfg)
     return {"history": hist, "configs": configs}
 
@@ -117,7 +119,7 @@ def execute(case: dict) -> Outcome:
     inter = []
     moved_any = False
     for cfg in case["configs"]:
-        etc = build_etc(frames)
+        etc = build_etc(frames, cfg.get("build", "ctor"))
         sig_cfg = {"method": cfg["method"], "grid": str(bool(cfg.get("grid")))}
         try:
             tracks = run_tracking(etc, cfg, box)
